@@ -77,10 +77,7 @@ def item_props(prop_name="_props"):
         for k in props.keys():
 
             def setter(self, val, k_=k):
-                if hasattr(val, "astype"):
-                    self.data[k_] = val.astype(self.data[k_].dtype)
-                else:
-                    self.data[k_] = val
+                self.data[k_] = val
 
             def getter(self, k_=k):
                 return self.data[k_]
